@@ -66,3 +66,16 @@ Example C06_nonvacuous :
   res_scaled (mod_ false (mk KDbl Fin (-65) (-1)) (mk KInt Fin 4 0)) = Some (-25) /\
   round_md (-25) 10 = -2 /\ round_md 25 10 = 3 /\ round_half_even_md 25 10 = 2.
 Proof. vm_compute. repeat split; reflexivity. Qed.
+
+(* mod and idiv on NaN / INF / -0.0 operands and zero divisors (XPath 2.0+): the F&O special-value rules.
+   For mod the result kind of a NaN result is the plain Python float (xs:double) - the type is compared by the
+   correspondence, the class / error / finite value here. *)
+Theorem C06_mod_special_values : forall a b, wf_num a = true -> wf_num b = true -> special_pair a b = true ->
+  res_cls (mod_ false a b) = res_cls (mod_special_spec a b) /\ res_err (mod_ false a b) = res_err (mod_special_spec a b) /\
+  res_val (mod_ false a b) = res_val (mod_special_spec a b).
+Proof. exact mod_special_eq_spec. Qed.
+Print Assumptions C06_mod_special_values.
+Theorem C06_idiv_special_values : forall a b, wf_num a = true -> wf_num b = true -> special_pair a b = true ->
+  match idiv_special_spec a b with Some r => idiv a b = r | None => exists c, idiv a b = Err c end.
+Proof. exact idiv_special_eq_spec. Qed.
+Print Assumptions C06_idiv_special_values.
